@@ -322,7 +322,7 @@ class CalleeMixin:
 
     def snapshot(self, cx, a):
         """remember the caller's record at entry (for `unchanged` clauses)"""
-        cx.ghost[("rec_in", self.target)] = rec_of(a.info)
+        cx.ghost[("rec_in", self.target)] = rec_of(a.get("info"))
 
     def rec_in(self, cx):
         return cx.ghost.get(("rec_in", self.target), ABSENT)
@@ -1103,3 +1103,649 @@ class Sample(Sampler):
 
 
 MPSContract.methods.update({"sample_configuration": f"{MPS}.sample_configuration", "sample": f"{MPS}.sample"})
+
+
+# ------------------------------------------------------------------------------------------------
+# gate_split (record NOT interpreted), gate_with_auto_swap
+# ------------------------------------------------------------------------------------------------
+
+ABSORB_KINDS = ("absent", "left", "right", "both", None)
+
+
+def absorb_of(opts):
+    """the absorb option the split sees (tensor_split's default is 'both')"""
+    return opts.get("absorb", "both") if isinstance(opts, dict) else "both"
+
+
+def leaf_gate_split(cx, mps, s0, s1, absorb, node):
+    """[assumed leaf, DESIGN 1.5 / C05]  gate_inds(G, (ind of s0, ind of s1), contract='split', absorb=...) on adjacent
+    sites: the two site tensors are contracted with the gate and split again, the factor holding the indices of s0 going
+    to s0.  absorb='right': the factor at s0 is an isometry towards s1; absorb='left': the factor at s1 is an isometry
+    towards s0; 'both' / None: neither.  No other tensor is touched."""
+    f = cx.fields(mps)
+    cx.oblige(f"call-pre@{node.lineno}:gate-split-on-adjacent-sites-of-the-chain", "call-pre",
+              And(Or(s1 == s0 + 1, s1 == s0 - 1), 0 <= s0, s0 < f["L"], 0 <= s1, s1 < f["L"]), node.lineno)
+    if absorb not in ("left", "right", "both", None):
+        raise Unsupported(f"split with absorb={absorb!r}")
+    hv = [cx.Bool("hv") for _ in range(4)]
+    l0, r0, l1, r1 = hv
+    if absorb == "right":
+        l0, r0 = If(s1 == s0 + 1, True, hv[0]), If(s1 == s0 + 1, hv[1], True)
+    elif absorb == "left":
+        l1, r1 = If(s0 == s1 + 1, True, hv[2]), If(s0 == s1 + 1, hv[3], True)
+    f["isL"] = z3.Store(z3.Store(f["isL"], s0, l0), s1, l1)
+    f["isR"] = z3.Store(z3.Store(f["isR"], s0, r0), s1, r1)
+
+
+@register
+class GateSplit(CalleeMixin, More):
+    """gate_split(G, where=(a, b), inplace, **compress_opts): NO record parameter -- the canonical-form record is not
+    interpreted here; the caller has to update its own record.
+    Promised: the receiver is returned iff inplace, else a copy and the receiver is untouched; only the tensors of a and
+    b change; by `absorb` (forwarded to the split): 'right' -> the tensor of a is an isometry towards b, 'left' -> the
+    tensor of b is an isometry towards a, 'both'/None/absent -> no isometry claim;  derived record rule: IF the centre was
+    inside {a, b} before (Sound((min,max), self)) THEN Sound((b,b)) ['right'] / Sound((a,a)) ['left'] / Sound((min,max))
+    [otherwise] holds for the result.
+    Not promised: anything about a record the caller keeps when the centre was elsewhere (stated domain: adjacent sites)."""
+
+    target = f"{MPS}.gate_split"
+    decorated = False
+    floor = 8
+
+    def cases(self):
+        return [NS(name=f"inplace={ip},absorb={ab}", inplace=ip, ab=ab) for ip in (True, False) for ab in ABSORB_KINDS]
+
+    def inputs(self, cx, case):
+        mps = new_mps(cx)
+        L = cx.fields(mps)["L"]
+        a, b = cx.Int("a"), cx.Int("b")
+        cx.assume(And(0 <= a, a < L, 0 <= b, b < L, Or(b == a + 1, b == a - 1)))
+        opts = {} if case.ab == "absent" else {"absorb": case.ab}
+        return dict(self=mps, G=cx.Opaque("G"), where=(a, b), inplace=case.inplace, compress_opts=opts)
+
+    def call(self, cx, name, args, kwargs, node):
+        if name == ".gate_inds" and isinstance(args[0], Ref) and args[0].kind == "MPS":
+            mps, inds = args[0], args[2]
+            if kwargs.get("contract") != "split" or not (isinstance(inds, tuple) and len(inds) == 2
+                                                          and all(isinstance(x, SiteInd) and x.mps == mps for x in inds)):
+                raise Unsupported("gate_inds: not the two-site split form")
+            tgt = mps
+            if not kwargs.get("inplace", False):
+                f = cx.fields(mps)
+                tgt = cx.new_obj("MPS", L=f["L"], cyclic=f["cyclic"], isL=f["isL"], isR=f["isR"])
+            leaf_gate_split(cx, tgt, inds[0].i, inds[1].i, kwargs.get("absorb", "both"), node)
+            return tgt
+        return super().call(cx, name, args, kwargs, node)
+
+    def call_reqs(self, cx, a):
+        L = cx.fields(a.self)["L"]
+        w = a.where
+        if not (isinstance(w, tuple) and len(w) == 2):
+            raise Unsupported("gate_split: where is not a pair of sites")
+        return {"adjacent-sites-of-the-chain": And(0 <= w[0], w[0] < L, 0 <= w[1], w[1] < L,
+                                                   Or(w[1] == w[0] + 1, w[1] == w[0] - 1))}
+
+    def modifies(self, a, case):
+        return [(a.self, ["isL", "isR"])] if a.inplace else []
+
+    def fresh_result(self, cx, a, case):
+        return a.self if a.inplace else new_mps(cx, "res", L=cx.fields(a.self)["L"])
+
+    def ensures(self, a, r, cx, case):
+        if not isinstance(r, Ref):
+            return {"returns-mps": False}
+        f, p = cx.fields(r), cx.pre(a.self)
+        s0, s1 = a.where
+        absorb = absorb_of(a.compress_opts)
+        d = {"returns-receiver-iff-inplace": (r == a.self) == bool(a.inplace), "length": f["L"] == p["L"],
+             "only-the-two-sites-change": forall_sites(Implies(And(K != s0, K != s1), And(
+                 sel(f["isL"], K) == sel(p["isL"], K), sel(f["isR"], K) == sel(p["isR"], K))))}
+        if not a.inplace:
+            d["receiver-untouched"] = untouched(cx, a.self)
+        lo, hi = Min(s0, s1), Max(s0, s1)
+        if absorb == "right":
+            d["first-site-isometric-towards-second"] = If(s1 == s0 + 1, sel(f["isL"], s0), sel(f["isR"], s0))
+            new = (s1, s1)
+        elif absorb == "left":
+            d["second-site-isometric-towards-first"] = If(s0 == s1 + 1, sel(f["isL"], s1), sel(f["isR"], s1))
+            new = (s0, s0)
+        else:
+            new = (lo, hi)
+        pre_sound = And(forall_sites(Implies(And(0 <= K, K < lo), sel(p["isL"], K))),
+                        forall_sites(Implies(And(hi < K, K < p["L"]), sel(p["isR"], K))))
+        d["derived-record-rule"] = Implies(pre_sound, Sound(cx, new, r))
+        return d
+
+
+MPSContract.methods.update({"gate_split": f"{MPS}.gate_split"})
+
+
+@register
+class GateWithAutoSwap(CalleeMixin, More):
+    """gate_with_auto_swap(G, (i, j), info, swap_back, inplace)   [@convert_cur_orthog]
+    swap j next to i (swap_site_to), canonicalize_ around the pair, gate_split_ with the absorb that leaves the centre at
+    lo + 1 (lo = min(i, j)), write the record (lo+1, lo+1), optionally swap back threading the same record.
+    Post: Sound(info', X), record inside the chain, X = receiver iff inplace, receiver untouched otherwise; when no
+    swap-back happens the record is exactly (lo+1, lo+1).   (The permutation of the physical sites is C06/C09 matter.)"""
+
+    target = f"{MPS}.gate_with_auto_swap"
+    floor = 20
+
+    def cases(self):
+        return [NS(name=f"inplace={ip},info={ik},swap_back={sb}", inplace=ip, ik=ik, sb=sb) for ip in (True, False)
+                for ik in info_kinds() for sb in (True, False)]
+
+    def inputs(self, cx, case):
+        mps = new_mps(cx)
+        L = cx.fields(mps)["L"]
+        info = mk_info(cx, case.ik)
+        for c in record_reqs(cx, mps, info).values():
+            cx.assume(c)
+        i, j = cx.Int("i"), cx.Int("j")
+        cx.assume(And(0 <= i, i < L, 0 <= j, j < L, i != j))
+        cx.ghost[("rec_in", self.target)] = rec_of(info)
+        return dict(self=mps, G=cx.Opaque("G"), where=(i, j), info=info, swap_back=case.sb, inplace=case.inplace,
+                    compress_opts={})
+
+    def call_reqs(self, cx, a):
+        L = cx.fields(a.self)["L"]
+        w = a.where
+        if not (isinstance(w, (tuple, list)) and len(w) == 2):
+            raise Unsupported("gate_with_auto_swap: where is not a pair of sites")
+        d = {"two-distinct-sites-of-the-chain": And(0 <= w[0], w[0] < L, 0 <= w[1], w[1] < L, w[0] != w[1])}
+        d.update(record_reqs(cx, a.self, a.info))
+        return d
+
+    def modifies(self, a, case):
+        return [(a.self, ["isL", "isR"])] if a.inplace else []
+
+    def fresh_result(self, cx, a, case):
+        self.fresh_record(cx, a)
+        return a.self if a.inplace else new_mps(cx, "res", L=cx.fields(a.self)["L"])
+
+    def ensures(self, a, r, cx, case):
+        if not isinstance(r, Ref):
+            return {"returns-mps": False}
+        d = {"returns-receiver-iff-inplace": (r == a.self) == bool(a.inplace),
+             "length": cx.fields(r)["L"] == cx.pre(a.self)["L"]}
+        if not a.inplace:
+            d["receiver-untouched"] = untouched(cx, a.self)
+        d.update(self.record_post(cx, a, r))
+        rec = rec_of(a.info)
+        if is_pair(rec):
+            i, j = a.where
+            lo = Min(i, j)
+            adjacent = Max(i, j) == lo + 1
+            if a.swap_back is False:
+                d["record-is-(lo+1,lo+1)"] = And(rec[0] == lo + 1, rec[1] == lo + 1)
+            elif a.swap_back is True:
+                d["record-is-(lo+1,lo+1)-when-adjacent"] = Implies(adjacent, And(rec[0] == lo + 1, rec[1] == lo + 1))
+        return d
+
+
+MPSContract.methods.update({"gate_with_auto_swap": f"{MPS}.gate_with_auto_swap"})
+
+
+# ------------------------------------------------------------------------------------------------
+# gate_with_submpo, gate_nonlocal
+# ------------------------------------------------------------------------------------------------
+
+
+class SubMPO:
+    """an MPO acting on the sites `sites` (a tuple of ints on the chain)"""
+
+    def __init__(self, sites):
+        self.sites = tuple(sites)
+
+
+class TagRange:
+    """[mps.site_tag(s) for s in range(lo, hi)]"""
+
+    def __init__(self, mps, lo, hi):
+        self.mps, self.lo, self.hi = mps, lo, hi
+
+
+class SubTN:
+    """the tensors of sites lo .. hi-1 split off a chain by partition(..., inplace=True)"""
+
+    def __init__(self, mps, lo, hi):
+        self.mps, self.lo, self.hi = mps, lo, hi
+
+
+def havoc_region(cx, mps, lo, hi, isL_in=None, isR_in=None):
+    """fresh flags on sites lo..hi (inclusive), everything else unchanged; optional facts about the new flags inside"""
+    f = cx.fields(mps)
+    nL, nR = cx.Array("isL_rg", z3.IntSort(), z3.BoolSort()), cx.Array("isR_rg", z3.IntSort(), z3.BoolSort())
+    cx.assume(forall_sites(Implies(Or(K < lo, K > hi), And(sel(nL, K) == sel(f["isL"], K), sel(nR, K) == sel(f["isR"], K)))))
+    if isL_in is not None:
+        cx.assume(forall_sites(Implies(And(lo <= K, K <= hi, isL_in(K)), sel(nL, K))))
+    if isR_in is not None:
+        cx.assume(forall_sites(Implies(And(lo <= K, K <= hi, isR_in(K)), sel(nR, K))))
+    f["isL"], f["isR"] = nL, nR
+
+
+METHOD_SWEEP = (("direct", "absent"), ("direct", True), ("direct", False), ("lazy", "absent"))
+
+
+class SubmpoBase(CalleeMixin, More):
+    """shared leaf modelling for gate_with_submpo / gate_nonlocal.  Assumed leaves:
+    * gate_with_op_lazy_(mpo): attaches the operator's tensors to the sites it acts on -- the isometry flags of the
+      sites min(sites)..max(sites) are lost, no other site changes; the network is not flat until compressed;
+    * partition(site tags of lo..hi, inplace=True): splits that region off; `psi |= sub` puts it back;
+    * tensor_network_1d_compress(sub, site_tags=region, inplace=True): the region lo..hi ends in canonical form with the
+      centre at its FIRST site (sites lo+1..hi right isometries), at its LAST site if sweep_reverse (sites lo..hi-1
+      left isometries); nothing outside the region is touched  [DESIGN C08 *A*]."""
+
+    def pending(self, cx):
+        return cx.ghost.setdefault("pending", {})
+
+    def detached(self, cx):
+        return cx.ghost.setdefault("detached", {})
+
+    def call(self, cx, name, args, kwargs, node):
+        if name == ".gen_sites_present" and isinstance(args[0], SubMPO):
+            return args[0].sites
+        if name == "MatrixProductOperator.from_dense":
+            sites = kwargs.get("sites")
+            if not isinstance(sites, (tuple, list)):
+                raise Unsupported("from_dense without explicit sites")
+            return SubMPO(sites)
+        if name == ".gate_with_op_lazy_" and isinstance(args[0], Ref) and args[0].kind == "MPS":
+            mps, op = args[0], args[1]
+            if not isinstance(op, SubMPO):
+                raise Unsupported("gate_with_op_lazy_ with an unknown operator")
+            lo, hi = where_range(op.sites)
+            L = cx.fields(mps)["L"]
+            cx.oblige(f"call-pre@{node.lineno}:operator-sites-on-the-chain", "call-pre", And(0 <= lo, hi < L), node.lineno)
+            havoc_region(cx, mps, lo, hi)
+            self.pending(cx)[mps.oid] = (lo, hi)
+            return mps
+        if name == "__genexp__":
+            n = args[0]
+            g = n.generators[0] if len(n.generators) == 1 else None
+            e = n.elt
+            if g is not None and not g.ifs and isinstance(g.target, ast.Name) and isinstance(e, ast.Call) \
+                    and isinstance(e.func, ast.Attribute) and e.func.attr == "site_tag" and len(e.args) == 1 \
+                    and isinstance(e.args[0], ast.Name) and e.args[0].id == g.target.id:
+                rng = cx.ev(g.iter)
+                mps = cx.ev(e.func.value)
+                if isinstance(rng, tuple) and len(rng) == 3 and rng[0] == "range" and isinstance(mps, Ref):
+                    return TagRange(mps, rng[1], rng[2])
+            raise Unsupported(f"comprehension at line {node.lineno}")
+        if name == ".partition" and isinstance(args[0], Ref) and isinstance(args[1], TagRange):
+            mps, tr = args[0], args[1]
+            if tr.mps != mps or kwargs.get("inplace") is not True or kwargs.get("which") != "any":
+                raise Unsupported("partition: not the in-place split of a site range")
+            self.detached(cx)[mps.oid] = (tr.lo, tr.hi)
+            return (cx.Opaque("rest"), SubTN(mps, tr.lo, tr.hi))
+        if name == "tensor_network_1d_compress":
+            sub = args[0]
+            tags = kwargs.get("site_tags")
+            if not (isinstance(sub, SubTN) and isinstance(tags, TagRange) and kwargs.get("inplace") is True):
+                raise Unsupported("tensor_network_1d_compress: not the in-place compression of a split-off region")
+            mps = sub.mps
+            lo, hi = sub.lo, sub.hi - 1
+            pend = self.pending(cx).get(mps.oid)
+            cx.oblige(f"call-pre@{node.lineno}:compresses-exactly-the-region-split-off", "call-pre",
+                      And(tags.lo == sub.lo, tags.hi == sub.hi, lo <= hi), node.lineno)
+            cx.oblige(f"call-pre@{node.lineno}:region-covers-the-lazily-applied-operator", "call-pre",
+                      And(lo <= pend[0], pend[1] <= hi) if pend else True, node.lineno)
+            if kwargs.get("sweep_reverse", False):
+                havoc_region(cx, mps, lo, hi, isL_in=lambda k: k < hi)
+            else:
+                havoc_region(cx, mps, lo, hi, isR_in=lambda k: k > lo)
+            self.pending(cx).pop(mps.oid, None)
+            return sub
+        if name == "__binop__" and args[0] == "BitOr" and isinstance(args[1], Ref) and isinstance(args[2], SubTN):
+            mps, sub = args[1], args[2]
+            det = self.detached(cx).get(mps.oid)
+            ok = det is not None and sub.mps == mps
+            cx.oblige(f"call-pre@{node.lineno}:recombines-the-region-that-was-split-off", "call-pre",
+                      And(det[0] == sub.lo, det[1] == sub.hi) if ok else False, node.lineno)
+            self.detached(cx).pop(mps.oid, None)
+            return mps
+        return super().call(cx, name, args, kwargs, node)
+
+    # ---- shared contract text
+    def sites_of(self, a):
+        raise NotImplementedError
+
+    def sweep_reverse(self, a):
+        return bool(a.compress_opts.get("sweep_reverse", False)) if isinstance(a.compress_opts, dict) else False
+
+    def call_reqs(self, cx, a):
+        L = cx.fields(a.self)["L"]
+        lo, hi = where_range(self.sites_of(a))
+        d = {"operator-sites-on-the-chain": And(0 <= lo, hi < L)}
+        d.update(record_reqs(cx, a.self, a.info))
+        return d
+
+    def modifies(self, a, case):
+        return [(a.self, ["isL", "isR"])] if a.inplace else []
+
+    def fresh_result(self, cx, a, case):
+        if a.method != "lazy":
+            self.fresh_record(cx, a)
+        r = a.self if a.inplace else new_mps(cx, "res", L=cx.fields(a.self)["L"])
+        if a.method == "lazy":
+            self.pending(cx)[r.oid] = where_range(self.sites_of(a))
+        return r
+
+    def ensures(self, a, r, cx, case):
+        if not isinstance(r, Ref):
+            return {"returns-mps": False}
+        f, p = cx.fields(r), cx.pre(a.self)
+        si, sf = where_range(self.sites_of(a))
+        d = {"returns-receiver-iff-inplace": (r == a.self) == bool(a.inplace), "length": f["L"] == p["L"]}
+        if not a.inplace:
+            d["receiver-untouched"] = untouched(cx, a.self)
+        rec, rec0 = rec_of(a.info), self.rec_in(cx)
+        if a.method == "lazy":
+            # the operator is only attached: the record is not interpreted and not written.  Promised: the record is
+            # the one handed in; only the operator's region changed; the record stays sound IF the region lies inside it
+            d["record-untouched"] = same_record(cx, rec, rec0)
+            d["only-the-operator-region-changes"] = forall_sites(Implies(Or(K < si, K > sf), And(
+                sel(f["isL"], K) == sel(p["isL"], K), sel(f["isR"], K) == sel(p["isR"], K))))
+            if is_pair(rec):
+                lo, hi = Min(rec[0], rec[1]), Max(rec[0], rec[1])
+                d["record-sound-if-the-region-lies-inside-it"] = Implies(And(lo <= si, sf <= hi), Sound(cx, (lo, hi), r))
+            d["operator-left-pending"] = r.oid in self.pending(cx)
+            return d
+        d.update(self.record_post(cx, a, r))
+        if is_pair(rec):
+            c = sf if self.sweep_reverse(a) else si
+            d["record-is-the-first-site-of-the-region-(last-if-sweep_reverse)"] = And(rec[0] == c, rec[1] == c)
+        if is_pair(rec0):
+            slo, shi = Min(si, Min(rec0[0], rec0[1])), Max(sf, Max(rec0[0], rec0[1]))
+            d["frame-outside-span"] = forall_sites(Implies(Or(K < slo, K > shi), And(
+                sel(f["isL"], K) == sel(p["isL"], K), sel(f["isR"], K) == sel(p["isR"], K))))
+        d["region-recombined-and-operator-contracted"] = r.oid not in self.pending(cx) and r.oid not in self.detached(cx)
+        return d
+
+
+@register
+class GateWithSubmpo(SubmpoBase):
+    """gate_with_submpo(submpo, where, method, transpose, info, inplace, inplace_mpo, **compress_opts) [@convert_cur_orthog]
+    method != 'lazy': canonicalize_ around the operator's span (si, sf), attach the operator, split the span off, compress
+    it, record (si, si) -- (sf, sf) if sweep_reverse --, recombine: Sound(info', X), record as stated.
+    method == 'lazy': see `ensures` (record not interpreted).   `where`, when given, is the operator's support."""
+
+    target = f"{MPS}.gate_with_submpo"
+    floor = 20
+
+    def cases(self):
+        return [NS(name=f"inplace={ip},info={ik},method={m},sweep_reverse={sr},where={wk}", inplace=ip, ik=ik, m=m, sr=sr, wk=wk)
+                for ip in (True, False) for ik in info_kinds() for m, sr in METHOD_SWEEP for wk in ("pair", "triple", "None")]
+
+    def sites_of(self, a):
+        return a.submpo.sites
+
+    def inputs(self, cx, case):
+        mps = new_mps(cx)
+        L = cx.fields(mps)["L"]
+        info = mk_info(cx, case.ik)
+        for c in record_reqs(cx, mps, info).values():
+            cx.assume(c)
+        sites = mk_where(cx, "triple" if case.wk == "triple" else "pair", L, base="s")
+        opts = {} if case.sr == "absent" else {"sweep_reverse": case.sr}
+        cx.ghost[("rec_in", self.target)] = rec_of(info)
+        return dict(self=mps, submpo=SubMPO(sites), where=None if case.wk == "None" else sites, method=case.m,
+                    transpose=False, info=info, inplace=case.inplace, inplace_mpo=False, compress_opts=opts)
+
+    def call_reqs(self, cx, a):
+        d = super().call_reqs(cx, a)
+        if a.where is not None:
+            lo, hi = where_range(a.where)
+            slo, shi = where_range(a.submpo.sites)
+            d["where-is-the-span-of-the-operator"] = And(lo == slo, hi == shi)
+        return d
+
+
+@register
+class GateNonlocal(SubmpoBase):
+    """gate_nonlocal(G, where, dims, method, transpose, info, inplace, **compress_opts)   [@convert_cur_orthog]
+    builds the sub-MPO on `where` and hands everything (record included, inplace as given) to gate_with_submpo_: same
+    post-condition."""
+
+    target = f"{MPS}.gate_nonlocal"
+    floor = 12
+
+    def cases(self):
+        return [NS(name=f"inplace={ip},info={ik},method={m},sweep_reverse={sr},dims={dk}", inplace=ip, ik=ik, m=m, sr=sr, dk=dk)
+                for ip in (True, False) for ik in info_kinds() for m, sr in METHOD_SWEEP for dk in ("None", "given")]
+
+    def sites_of(self, a):
+        return tuple(a.where)
+
+    def inputs(self, cx, case):
+        mps = new_mps(cx)
+        L = cx.fields(mps)["L"]
+        info = mk_info(cx, case.ik)
+        for c in record_reqs(cx, mps, info).values():
+            cx.assume(c)
+        opts = {} if case.sr == "absent" else {"sweep_reverse": case.sr}
+        cx.ghost[("rec_in", self.target)] = rec_of(info)
+        return dict(self=mps, G=cx.Opaque("G"), where=mk_where(cx, "pair", L), dims=None if case.dk == "None" else cx.Opaque("dims"),
+                    method=case.m, transpose=False, info=info, inplace=case.inplace, compress_opts=opts)
+
+
+MPSContract.methods.update({"gate_with_submpo": f"{MPS}.gate_with_submpo", "gate_nonlocal": f"{MPS}.gate_nonlocal"})
+
+
+# ------------------------------------------------------------------------------------------------
+# gate_TN_1D (the dispatcher behind MatrixProductState.gate) and TensorNetwork1DVector.gate
+# ------------------------------------------------------------------------------------------------
+
+
+class GateArray:
+    """a gate matrix; ghost `unitary` (Bool): declared unitary"""
+
+    def __init__(self, unitary):
+        self.unitary = unitary
+
+
+def unitary_of(cx, G):
+    return G.unitary if isinstance(G, GateArray) else z3.BoolVal(False)
+
+
+def leaf_generic_gate(cx, mps, G, where, kwargs, node):
+    """[assumed leaf, DESIGN C08 domain note]  TensorNetworkGenVector.gate(tn, G, where, contract=True) with ONE site:
+    the gate is contracted into that site's tensor; no other tensor changes; the canonical-form record is NOT interpreted
+    (the `info` dict is used for other purposes there).  The site's isometry flags survive iff G is declared unitary."""
+    ws = (where,) if is_int(where) else tuple(where)
+    ok = kwargs.get("contract") is True and len(ws) == 1
+    cx.oblige(f"call-pre@{node.lineno}:generic-gate-route-only-for-a-contracted-one-site-gate", "call-pre", ok, node.lineno)
+    if not ok:
+        raise PathEnd("outside the MPS domain")
+    tgt = mps
+    f = cx.fields(mps)
+    if not kwargs.get("inplace", False):
+        tgt = cx.new_obj("MPS", L=f["L"], cyclic=f["cyclic"], isL=f["isL"], isR=f["isR"])
+        f = cx.fields(tgt)
+    s = ws[0]
+    cx.oblige(f"call-pre@{node.lineno}:gated-site-on-the-chain", "call-pre", And(0 <= s, s < f["L"]), node.lineno)
+    u = unitary_of(cx, G)
+    f["isL"] = z3.Store(f["isL"], s, If(u, sel(f["isL"], s), cx.Bool("hv")))
+    f["isR"] = z3.Store(f["isR"], s, If(u, sel(f["isR"], s), cx.Bool("hv")))
+    return tgt
+
+
+MPS_CONTRACT_KINDS = ("auto-mps", "swap+split", "nonlocal", True)
+
+
+@register
+class GateTN1D(SubmpoBase):
+    """gate_TN_1D(tn, G, where, contract, tags, propagate_tags, info, inplace, cur_orthog, **compress_opts) for the contract
+    modes that keep MPS form ('auto-mps', 'swap+split', 'nonlocal', True with one site).  Routes:
+      one site            -> generic gate (contract=True): record untouched; Sound(info', X) IF the gate is unitary or the
+                             site lies inside the recorded range (stated precondition of DESIGN C08, not a finding)
+      two sites, auto-mps / swap+split -> gate_with_auto_swap: Sound(info', X)
+      'nonlocal' (>= 2 sites) or auto-mps with >= 3 sites -> gate_nonlocal: Sound(info', X), record at the region's
+                             first (last) site; method='lazy': record not interpreted (see gate_with_submpo)
+    Other contract modes (False, 'split-gate', ...) leave MPS form: outside the domain of the record."""
+
+    target = f"{F}::gate_TN_1D"
+    decorated = False
+    floor = 30
+
+    def cases(self):
+        out = []
+        for ck in MPS_CONTRACT_KINDS:
+            for wk in ("int", "pair", "triple"):
+                if (ck is True and wk != "int") or (ck == "swap+split" and wk == "triple"):
+                    continue  # outside the domain: contract=True on several sites leaves MPS form; 'swap+split' is a
+                    #           two-site mode (`i, j = where` raises for more)
+                for ip in (True, False):
+                    for ik in ("absent", "empty", "pair", "calc"):
+                        for m in ("direct", "lazy") if (ck in ("auto-mps", "nonlocal") and wk != "int") else ("direct",):
+                            out.append(NS(name=f"contract={ck},where={wk},inplace={ip},info={ik},method={m}", ck=ck, wk=wk,
+                                          inplace=ip, ik=ik, m=m))
+        return out
+
+    def inputs(self, cx, case):
+        mps = new_mps(cx)
+        L = cx.fields(mps)["L"]
+        info = mk_info2(cx, case.ik)
+        for c in record_reqs(cx, mps, info).values():
+            cx.assume(c)
+        where = mk_where(cx, case.wk, L)
+        if not is_int(where):
+            cx.assume(And(*[where[x] != where[y] for x in range(len(where)) for y in range(x)]))
+        cx.ghost[("rec_in", self.target)] = rec_of(info)
+        opts = {"method": "lazy"} if case.m == "lazy" else {}
+        return dict(tn=mps, G=GateArray(cx.Bool("unitary")), where=where, contract=case.ck, tags=None,
+                    propagate_tags="sites", info=info, inplace=case.inplace, cur_orthog=None, compress_opts=opts)
+
+    def call(self, cx, name, args, kwargs, node):
+        if name == "TensorNetworkGenVector.gate":
+            return leaf_generic_gate(cx, args[0], args[1], args[2], kwargs, node)
+        return super().call(cx, name, args, kwargs, node)
+
+    # ---- the route table (what the dispatcher is proved to do)
+    @staticmethod
+    def sites(a):
+        return (a.where,) if is_int(a.where) else tuple(a.where)
+
+    def route(self, a):
+        ng = len(self.sites(a))
+        c = a.contract
+        if ng == 1 and (c is True or c in ("auto-mps", "swap+split", "nonlocal")):
+            return "generic"
+        if (c == "auto-mps" and ng == 2) or c == "swap+split":
+            return "swap" if ng == 2 else "unsupported"
+        if c == "nonlocal" or c == "auto-mps":
+            return "nonlocal"
+        return "unsupported"
+
+    def method_of(self, a):
+        return a.compress_opts.get("method", "direct") if isinstance(a.compress_opts, dict) else "direct"
+
+    def the_mps(self, a):
+        return a.tn
+
+    def call_reqs(self, cx, a):
+        mps = self.the_mps(a)
+        L = cx.fields(mps)["L"]
+        ws = self.sites(a)
+        d = {"contract-mode-keeps-MPS-form": self.route(a) != "unsupported",
+             "sites-on-the-chain": And(*[And(0 <= w, w < L) for w in ws]),
+             "sites-distinct": And(*[ws[x] != ws[y] for x in range(len(ws)) for y in range(x)])}
+        d.update(record_reqs(cx, mps, a.info))
+        return d
+
+    def modifies(self, a, case):
+        return [(self.the_mps(a), ["isL", "isR"])] if a.inplace else []
+
+    def fresh_result(self, cx, a, case):
+        mps = self.the_mps(a)
+        route = self.route(a)
+        lazy = route == "nonlocal" and self.method_of(a) == "lazy"
+        if route != "generic" and not lazy:
+            self.fresh_record(cx, a)
+        r = mps if a.inplace else new_mps(cx, "res", L=cx.fields(mps)["L"])
+        if lazy:
+            self.pending(cx)[r.oid] = where_range(self.sites(a))
+        return r
+
+    def ensures(self, a, r, cx, case):
+        if not isinstance(r, Ref):
+            return {"returns-mps": False}
+        mps = self.the_mps(a)
+        f, p = cx.fields(r), cx.pre(mps)
+        d = {"returns-receiver-iff-inplace": (r == mps) == bool(a.inplace), "length": f["L"] == p["L"]}
+        if not a.inplace:
+            d["receiver-untouched"] = untouched(cx, mps)
+        route = self.route(a)
+        rec, rec0 = rec_of(a.info), self.rec_in(cx)
+        ws = self.sites(a)
+        si, sf = where_range(ws)
+        b = NS(info=a.info)
+        if route == "generic":
+            s = ws[0]
+            d["record-untouched"] = same_record(cx, rec, rec0)
+            d["only-the-gated-site-changes"] = forall_sites(Implies(K != s, And(
+                sel(f["isL"], K) == sel(p["isL"], K), sel(f["isR"], K) == sel(p["isR"], K))))
+            if is_pair(rec):
+                lo, hi = Min(rec[0], rec[1]), Max(rec[0], rec[1])
+                d["record-sound-if-gate-unitary-or-site-inside-the-record"] = Implies(
+                    Or(unitary_of(cx, a.G), And(lo <= s, s <= hi)), And(Sound(cx, (lo, hi), r), 0 <= lo, hi < f["L"]))
+        elif route == "swap":
+            if isinstance(a.info, dict):
+                d.update(self.record_post(cx, b, r))
+        elif route == "nonlocal":
+            if self.method_of(a) == "lazy":
+                d["record-untouched"] = same_record(cx, rec, rec0)
+                d["only-the-operator-region-changes"] = forall_sites(Implies(Or(K < si, K > sf), And(
+                    sel(f["isL"], K) == sel(p["isL"], K), sel(f["isR"], K) == sel(p["isR"], K))))
+                d["operator-left-pending"] = r.oid in self.pending(cx)
+            elif isinstance(a.info, dict):
+                d.update(self.record_post(cx, b, r))
+                if is_pair(rec):
+                    c = sf if self.sweep_reverse(a) else si
+                    d["record-is-the-first-site-of-the-region-(last-if-sweep_reverse)"] = And(rec[0] == c, rec[1] == c)
+        else:
+            d["contract-mode-keeps-MPS-form"] = False
+        return d
+
+
+@register
+class VectorGate(GateTN1D):
+    """TensorNetwork1DVector.gate(self, *args, inplace=False, **kwargs) = gate_TN_1D(self, *args, inplace=inplace, **kwargs):
+    same contract with tn = self (arguments bound through the real signature of gate_TN_1D)"""
+
+    target = f"{TN1DVEC}.gate"
+    floor = 30
+
+    def inputs(self, cx, case):
+        d = super().inputs(cx, case)
+        kwargs = dict(contract=d["contract"], info=d["info"])
+        kwargs.update(d["compress_opts"])
+        self._bound = None
+        return dict(self=d["tn"], args=(d["G"], d["where"]), inplace=d["inplace"], kwargs=kwargs)
+
+    def bound(self, a):
+        from vf.pyvc import bind_args, load_function
+        fn, _, _ = load_function(GateTN1D.target)
+        b = bind_args(fn, [a.self] + list(a.args), dict(a.kwargs, inplace=a.inplace))
+        return b
+
+    def the_mps(self, a):
+        return a.tn if "tn" in a else a.self
+
+    def call_reqs(self, cx, a):
+        return super().call_reqs(cx, self.bound(a))
+
+    def snapshot(self, cx, a):
+        cx.ghost[("rec_in", self.target)] = rec_of(a.kwargs.get("info"))
+
+    def modifies(self, a, case):
+        return [(a.self, ["isL", "isR"])] if a.inplace else []
+
+    def fresh_result(self, cx, a, case):
+        return super().fresh_result(cx, self.bound(a), case)
+
+    def ensures(self, a, r, cx, case):
+        return super().ensures(self.bound(a), r, cx, case)
+
+
+MPSContract.methods.update({"gate": f"{TN1DVEC}.gate"})
